@@ -31,6 +31,7 @@ fn streams(t: Tier) -> Vec<StreamDef> {
         st("big", t.n(320, 8000, 0, 320), false),
         st("payload_lengths", t.n(40 * 1018, 40 * 1018, 60, 40 * 1018), true),
         st("vendor_grid", t.n(wire::VENDOR_GRID, wire::VENDOR_GRID, 40, wire::VENDOR_GRID), true),
+        st("text_grid", t.n(wire::TEXT_GRID, wire::TEXT_GRID, 60, wire::TEXT_GRID), true),
     ]
 }
 
@@ -447,6 +448,12 @@ fn run(ctx: &mut Ctx) {
             let idx = ctx.idx;
             let b = wire::vendor_grid_case(&mut ctx.rng, idx);
             judge(ctx, &b, "vendor_grid");
+            judge_avps(ctx, &b[12..]);
+        }
+        "text_grid" => {
+            let idx = ctx.idx;
+            let b = wire::text_grid_case(&mut ctx.rng, idx);
+            judge(ctx, &b, "text_grid");
             judge_avps(ctx, &b[12..]);
         }
         "payload_lengths" => {
